@@ -106,3 +106,17 @@ def bootModule (w : World) (principal : String) (autocreate defaults : Bool) : W
   else w.markPrincipal P
 
 end Xandikos.Http
+
+namespace Xandikos.Http
+open Xandikos.Py
+
+/-- `web.WELLKNOWN_DAV_PATHS` -/
+def wellknownPaths : List (List Char) := ["/.well-known/caldav".toList, "/.well-known/carddav".toList]
+
+/-- `wsgi_helpers.WellknownRedirector.__call__`: the request is answered with `302` and
+    `Location: <dav root>` iff `normpath(SCRIPT_NAME + PATH_INFO)` is one of the well-known
+    paths — however the container divides the URL path between the two variables -/
+def wellknownRedirects (script pathInfo : List Char) : Bool :=
+  wellknownPaths.contains (Path.normpath (script ++ pathInfo))
+
+end Xandikos.Http
